@@ -44,7 +44,7 @@ def main():
     sh(["git", "clean", "-fdq"], wt)
     dst = os.path.join(wt, demodir, "zz_verif_demo_test.go")
     shutil.copy(demo, dst)
-    run = ["-run", "TestDemo%s" % n]
+    run = ["-run", a[a.index("--run") + 1] if "--run" in a else "TestDemo%s" % n]
     rc0, o0 = sh([GO, "test", "-vet=off", "-count=1"] + run + ["./" + demodir + "/"], wt)
     meta["demo_without_patch"] = "pass" if rc0 == 0 else "FAIL"
     meta["ran"].append("worktree clean: go test -run TestDemo%s ./%s/ -> rc=%d" % (n, demodir, rc0))
@@ -118,7 +118,7 @@ def main():
     notes = os.path.join(out, "NOTES.md")
     if os.path.exists(notes):
         shutil.copy(notes, d + "/NOTES.md")
-    meta["demo_placement"] = "%s/ (go test -run TestDemo%s ./%s/)" % (demodir, n, demodir)
+    meta["demo_placement"] = "%s/ (go test -run '%s' ./%s/)" % (demodir, run[1], demodir)
     json.dump(meta, open(d + "/meta.json", "w"), indent=1)
     print("caught by:", meta["caught_by"])
 
